@@ -122,6 +122,59 @@ def plantedσ (I : MinorInst) (copies : String → String → Nat) : NVar → Ra
        | none => 0)
     | w => b w
 
+/-! ### minor stage, closed form: the zero-error point and the clauses under which it is feasible
+(`Props/C01Minor.lean` proves: clauses ⇒ feasible with objective 0, for every instance) -/
+
+/-- the closed-form planted point: the first `copies (major, minor)` copy selectors of every
+candidate are on, every definition variant of a selected copy is kept, nothing is added, no
+error; phase pattern `ri` is given to the cell `(choose ri, ri)` -/
+def zeroσ (copies : String → String → Nat) (choose : Nat → Option Nat) : NVar → Rat
+  | .A s => if s.idx < copies s.major s.minor then 1 else 0
+  | .K _ s => if s.idx < copies s.major s.minor then 1 else 0
+  | .MULK _ s => if s.idx < copies s.major s.minor then 1 else 0
+  | .PH ai ri => if choose ri = some ai then 1 else 0
+  | .PH2 ai ri _ => if choose ri = some ai then 1 else 0
+  | _ => 0
+
+/-- planted copies weighted by a per-candidate quantity -/
+def weight (I : MinorInst) (copies : String → String → Nat) (F : MinorCand → Rat) : Rat :=
+  (I.cands.map fun c => (copies c.major c.minor : Rat) * F c).sum
+
+def ind (b : Bool) : Rat := if b then 1 else 0
+
+/-- planted carriers of a considered variant -/
+def carriersOf (I : MinorInst) (copies : String → String → Nat) (m : Mut) : Rat :=
+  I.weight copies fun c => ind (c.defMuts.contains m)
+
+/-- the clauses of `PlantedMinor`, decided -/
+def plantedMinorClauses (I : MinorInst) (copies : String → String → Nat) (choose : Nat → Option Nat) :
+    List (String × Bool) :=
+  let σ := zeroσ copies choose
+  [("fits", I.cands.all fun c => decide (copies c.major c.minor ≤ I.count c.major)),
+   ("fills", I.majorSol.all fun mc => decide (I.weight copies (fun c => ind (c.major == mc.1)) = (mc.2 : Rat))),
+   ("total", decide (I.weight copies (fun _ => 1) ≤ (((I.majorSol.map (·.2)).sum : Nat) : Rat))),
+   ("covered", I.cands.all fun c => decide (copies c.major c.minor = 0) || c.defMuts.all fun m => I.hasCov c m.pos),
+   ("variants", I.mutations.all fun m => decide (I.observed m = I.carriersOf copies m)),
+   ("reference", I.positions.all fun pos =>
+      decide (I.observed (refMut' pos) = I.weight copies fun c => ind (I.hasCov c pos && (presentAt c pos).isEmpty))),
+   ("single", I.cands.all fun c => decide (copies c.major c.minor = 0) ||
+      I.positions.all fun pos => decide ((keptAt c pos).length ≤ 1)),
+   ("supported", I.mutations.all fun m =>
+      if I.cn.positionCn I.gene m.pos == 0 || I.cov.coverage m == 0 then decide (I.carriersOf copies m = 0)
+      else decide (1 ≤ I.carriersOf copies m) && decide (I.carriersOf copies m ≤ I.cov.coverage m)),
+   ("room", I.positions.all fun pos =>
+      decide (I.weight copies (fun c => ((I.addAt c pos).length : Rat)) ≤ I.rule6Rhs pos)),
+   ("phaseChosen", (List.range I.phases.length).all fun ri =>
+      (I.phaseCells.filter (·.ri == ri)).isEmpty ||
+      I.phaseCells.any fun c => c.ri == ri && decide (choose ri = some c.ai)),
+   ("phaseAgrees", I.phaseCells.all fun c =>
+      !decide (choose c.ri = some c.ai) ||
+      (decide (c.slot.idx < copies c.slot.major c.slot.minor) &&
+       c.pos.all (fun v => decide (σ v = 1)) && c.neg.all (fun v => decide (σ v = 0))))]
+
+def plantedMinorB (I : MinorInst) (copies : String → String → Nat) (choose : Nat → Option Nat) : Bool :=
+  (I.plantedMinorClauses copies choose).all (·.2)
+
 end MinorInst
 
 end Aldy
